@@ -66,3 +66,39 @@ fn c16_replace_trim() {
 fn canary_scalar_must_fail() {
     assert!(is_str(&frag_fn_concat(sv("a"), vec![sv("b")]), "ba"), "CANARY must fail");
 }
+#[kani::proof]
+#[kani::unwind(12)]
+fn c16_case() {
+    kani::cover!(true);
+    assert!(is_str(&frag_fn_lower(sv("HeLLo"), vec![]), "hello"), "OBL C16.case: LOWER");
+    assert!(is_str(&frag_fn_upper(sv("HeLLo"), vec![]), "HELLO"), "OBL C16.case: UPPER");
+    assert!(is_str(&frag_fn_lower(sv("\u{c9}T\u{c9}"), vec![]), "\u{e9}t\u{e9}"), "OBL C16.case: LOWER on non-ASCII letters");
+    assert!(is_str(&frag_fn_upper(sv(""), vec![]), ""), "OBL C16.case: empty");
+}
+#[kani::proof]
+#[kani::unwind(16)]
+fn c16_initcap() {
+    kani::cover!(true);
+    assert!(is_str(&frag_fn_initcap(sv("hello wORLD"), vec![]), "Hello World"), "OBL C16.initcap: first letter of every word upper, the rest lower");
+    assert!(is_str(&frag_fn_initcap(sv(""), vec![]), ""), "OBL C16.initcap: empty");
+}
+#[kani::proof]
+#[kani::unwind(12)]
+fn c16_abs_least_greatest() {
+    kani::cover!(true);
+    assert!(is_float(&frag_fn_abs(sv("-5"), vec![]), 5.0), "OBL C16.abs: ABS(-5)");
+    assert!(is_float(&frag_fn_abs(sv("2.5"), vec![]), 2.5), "OBL C16.abs: ABS(2.5)");
+    assert!(is_empty_value(&frag_fn_abs(sv("x"), vec![])), "OBL C16.abs: ill-typed argument -> empty value, no panic");
+    assert!(is_float(&frag_fn_least(sv("3"), vec![sv("1"), sv("2")]), 1.0), "OBL C16.least");
+    assert!(is_float(&frag_fn_least(sv("-3"), vec![sv("1")]), -3.0), "OBL C16.least: the first argument counts");
+    assert!(is_float(&frag_fn_greatest(sv("3"), vec![sv("7"), sv("x")]), 7.0), "OBL C16.greatest: ill-typed later arguments are skipped");
+    assert!(is_empty_value(&frag_fn_greatest(sv("x"), vec![sv("7")])), "OBL C16.greatest: ill-typed first argument -> empty value");
+}
+#[kani::proof]
+#[kani::unwind(12)]
+fn c16_sqrt() {
+    kani::cover!(true);
+    assert!(is_float(&frag_fn_sqrt(sv("9"), vec![]), 3.0), "OBL C16.sqrt: SQRT(9)");
+    assert!(is_float(&frag_fn_sqrt(sv("2.25"), vec![]), 1.5), "OBL C16.sqrt: SQRT(2.25)");
+    assert!(is_empty_value(&frag_fn_sqrt(sv("x"), vec![])), "OBL C16.sqrt: ill-typed argument -> empty value");
+}
